@@ -50,6 +50,16 @@ fn main() {
         // diagnostic: time the collision searches
         let m = verif_core::keymodel::KeyModel::extract().expect("key model");
         let t = std::time::Instant::now();
+        let pairs = verif_core::collide::colour_collision_pairs(&m, 8);
+        println!("colour-collision pairs: {} in {:.1}s", pairs.len(), t.elapsed().as_secs_f64());
+        for (a, b) in pairs.iter().take(3) {
+            let (ba, bb) = (verif_core::bridge::build(a).unwrap(), verif_core::bridge::build(b).unwrap());
+            println!("  {:#} | {:#} | hashes {:016x} {:016x} eq={} same_position={}", ba, bb, ba.hash(), bb.hash(), ba == bb, ba.same_position(&bb));
+        }
+        if args.get(1).map(|s| s.as_str()) == Some("colour") {
+            exit(0);
+        }
+        let t = std::time::Instant::now();
         let pairs = verif_core::collide::kind_collision_pairs(&m, 8);
         println!("kind-collision pairs: {} in {:.1}s", pairs.len(), t.elapsed().as_secs_f64());
         for (a, b) in pairs.iter().take(3) {
